@@ -20,11 +20,15 @@ import DarkluaModel.Rules.AllocSteps
 import DarkluaModel.Rules.UnusedVariableHeap
 import DarkluaModel.Rules.UnusedVariableHeapV
 import DarkluaModel.Rules.UnusedVariableHeapV2
+import DarkluaModel.Rules.UnusedVariableHeapV3
 import DarkluaModel.Shared.VisitorSound.HeapV.VOracle
 import DarkluaModel.Rules.NilDeclarationHeap
 import DarkluaModel.Rules.NilDeclarationHeap2
 import DarkluaModel.Rules.ConvertIndexWhole
 import DarkluaModel.Rules.ComputeExpressionWhole
+import DarkluaModel.Rules.WholeRuleC08
+import DarkluaModel.Rules.AllocCondU
+import DarkluaModel.Rules.EvaluatorFloat
 /-!
 # C01 — default rules preserve program behaviour: property theorems
 
@@ -688,7 +692,7 @@ trace of external calls — at every call level, number system and oracle. Outsi
 although a shadowed occurrence remains (FindUsage is scope aware, the link is not), initialisers that are
 "pure" for the evaluator but not total (`local x = -nil`: the original RAISES, the output does not — not a
 C01 violation, C01 only speaks about error-free originals), effectful values kept as statements, regrouping,
-unused local functions (closure allocation), F25. -/
+unused local functions (closure allocation). (F25 is fixed.) -/
 theorem rule_refines_remove_unused_variable_partial (api : EvalApi) (b : Block)
     (h : Rules.UnusedVariable.Guarded.applyG api b = Rules.UnusedVariable.apply api b)
     {N : NumOps} (ρ : ExtOracle N) (n : Nat) (externs : List String) :
@@ -825,6 +829,50 @@ theorem rule_refines_remove_unused_variable_partialV2_driver (api : EvalApi) (b 
 
 example : Sem.HeapV.OracleFlat Shared.driverOracle := Sem.HeapV.driverOracle_flat
 
+/-- **Whole rule, fourth fragment** (`_partialV3`; after the fix of F25): the guarded version additionally performs the
+rule's replacement of an unused declaration whose single value is effectful for the evaluator but not a call
+(`local u = t.k` ↦ `do local _ = t.k end`; the declared names are not `_` and not referenced afterwards). New
+stage-4 leaf `Sem.HeapV.localToDo_sound`: both sides perform the same evaluation, the cells bound on either side
+are garbage. -/
+theorem rule_refines_remove_unused_variable_partialV3 (api : EvalApi) (b : Block)
+    (h : Rules.UnusedVariable.GuardedV3.applyG api b = Rules.UnusedVariable.apply api b)
+    {N : NumOps} (ρ : ExtOracle N) (hρ : Sem.HeapV.OracleFlat ρ) (n : Nat) (externs : List String) :
+    runProgram ρ n externs (Rules.UnusedVariable.apply api b) = runProgram ρ n externs b :=
+  Rules.UnusedVariable.GuardedV3.apply_refines_of_agree api b h ρ hρ n externs
+
+/-- that guarded rule is sound on EVERY program -/
+theorem rule_refines_remove_unused_variable_guardedV3 (api : EvalApi) (b : Block)
+    {N : NumOps} (ρ : ExtOracle N) (hρ : Sem.HeapV.OracleFlat ρ) (n : Nat) (externs : List String) :
+    runProgram ρ n externs (Rules.UnusedVariable.GuardedV3.applyG api b) = runProgram ρ n externs b :=
+  Rules.UnusedVariable.GuardedV3.applyG_refines api b ρ hρ n externs
+
+theorem rule_refines_remove_unused_variable_partialV3_driver (api : EvalApi) (b : Block)
+    (h : Rules.UnusedVariable.GuardedV3.applyG api b = Rules.UnusedVariable.apply api b) (n : Nat) (externs : List String) :
+    runProgram Shared.driverOracle n externs (Rules.UnusedVariable.apply api b) = runProgram Shared.driverOracle n externs b :=
+  rule_refines_remove_unused_variable_partialV3 api b h _ Sem.HeapV.driverOracle_flat n externs
+
+/-- the former F25 witness: `_ = 5; local t = { k = 1 }; local unused = t.k; return _` -/
+def unusedFieldSample : Block :=
+  .mk [.assign [.var "_"] [.num 5], .localAssign .loc [.mk "t" none] [.table [.named "k" (.num 1)]],
+       .localAssign .loc [.mk "unused" none] [.field (.var "t") "k"]] (some (.ret [.var "_"]))
+
+-- non-vacuity (and regression of F25): the declaration becomes `do local _ = t.k end`; inside the new `H`, outside
+-- the previous one
+example : Rules.UnusedVariable.GuardedV3.applyG (c08Api C08.toyN C08.toyE) unusedFieldSample =
+      Rules.UnusedVariable.apply (c08Api C08.toyN C08.toyE) unusedFieldSample ∧
+    Rules.UnusedVariable.apply (c08Api C08.toyN C08.toyE) unusedFieldSample =
+      .mk [.assign [.var "_"] [.num 5], .localAssign .loc [.mk "t" none] [.table [.named "k" (.num 1)]],
+           .doBlock (.mk [.localAssign .loc [.mk "_" none] [.field (.var "t") "k"]] none)] (some (.ret [.var "_"])) ∧
+    Rules.UnusedVariable.GuardedV2.applyG (c08Api C08.toyN C08.toyE) unusedFieldSample = unusedFieldSample := by
+  have h1 : Rules.UnusedVariable.GuardedV3.applyG (c08Api C08.toyN C08.toyE) unusedFieldSample =
+      .mk [.assign [.var "_"] [.num 5], .localAssign .loc [.mk "t" none] [.table [.named "k" (.num 1)]],
+           .doBlock (.mk [.localAssign .loc [.mk "_" none] [.field (.var "t") "k"]] none)] (some (.ret [.var "_"])) := by rfl
+  have h2 : Rules.UnusedVariable.apply (c08Api C08.toyN C08.toyE) unusedFieldSample =
+      .mk [.assign [.var "_"] [.num 5], .localAssign .loc [.mk "t" none] [.table [.named "k" (.num 1)]],
+           .doBlock (.mk [.localAssign .loc [.mk "_" none] [.field (.var "t") "k"]] none)] (some (.ret [.var "_"])) := by rfl
+  have h3 : Rules.UnusedVariable.GuardedV2.applyG (c08Api C08.toyN C08.toyE) unusedFieldSample = unusedFieldSample := by rfl
+  exact ⟨h1.trans h2.symm, h2, h3⟩
+
 /-! ### remove_nil_declaration — whole rule on a fragment (stage-3 lifting: equality up to cell renumbering) -/
 
 /-- **Whole rule** (`_partial`): for every evaluator `api` and every program `b` on which the rule agrees with its
@@ -927,6 +975,256 @@ example : Rules.NilDeclaration.General.applyG litApi nilCallSample = Rules.NilDe
       .mk [.localAssign .loc [.mk "b" none, .mk "a" none, .mk "c" none] [.paren (.call (.var "f") none .tuple [])],
            .callStmt (.call (.var "emit") none .tuple [.var "a", .var "b", .var "c"])] none := by rfl
   have h3 : Rules.NilDeclaration.Guarded.applyG litApi nilCallSample = nilCallSample := by rfl
+  exact ⟨h1.trans h2.symm, h2, h3⟩
+
+/-! ## whole-rule theorems for the REAL evaluator (`c08Api N E`, `C08.Agree N E`)
+
+The `_upto` theorems above ask the evaluator contract at EVERY number system (`∀ N, EvalTotal N api`), which only
+`litApi` meets: the rule `apply (c08Api N E)` and C08's theorems are relative to ONE number system that agrees
+with the evaluator's primitives. `Rules/AtN.lean` lifts hooks that are sound for runs over one `N` (stage 3; the
+number system is pinned through the context's call-handler assumption `CF`, discharged by `rfl` at every level).
+
+What the real evaluator provably meets in TOTAL form (a dropped evaluation must SUCCEED, not merely be harmless
+when it succeeds) is `gApi N E`: `c08Api N E` restricted to `guard = h8 ∧ tot` (`Rules/EvalC08Total.lean`:
+`tot_total`, `gApi_total`, `gApi_str` from `C08.evaluate_sound_partial`, `C08.truthy_sound`, `C08.single_sound`).
+A rule run with `gApi` is the guarded rule — sound on every program —, and the rule itself is covered on every
+program on which the two runs agree (a decidable hypothesis; driver op `c01.c08guard`). -/
+
+/-- `remove_unused_while` with the real evaluator, guarded: EVERY program, every run over a number system that
+agrees with the evaluator's primitives. -/
+theorem rule_refines_remove_unused_while_upto_C08_guarded {N : NumOps} {E : Evaluator.EvalOps N}
+    (A : C08.Agree N E) (b : Block) (ρ : ExtOracle N) (n : Nat) (externs : List String) :
+    runProgram ρ n externs b = .timeout ∨
+      runProgram ρ n externs (Rules.UnusedWhile.apply (gApi N E) b) = runProgram ρ n externs b :=
+  Rules.UnusedWhile.apply_upto_at (gApi_total A) b ρ n externs
+
+/-- `remove_unused_while` as the driver runs it (`c08Api N E`): every program on which it agrees with the guarded
+rule (every removed loop has a condition inside `h8 ∧ tot`). -/
+theorem rule_refines_remove_unused_while_upto_C08 {N : NumOps} {E : Evaluator.EvalOps N}
+    (A : C08.Agree N E) (b : Block)
+    (h : Rules.UnusedWhile.apply (gApi N E) b = Rules.UnusedWhile.apply (c08Api N E) b)
+    (ρ : ExtOracle N) (n : Nat) (externs : List String) :
+    runProgram ρ n externs b = .timeout ∨
+      runProgram ρ n externs (Rules.UnusedWhile.apply (c08Api N E) b) = runProgram ρ n externs b := by
+  rw [← h]; exact rule_refines_remove_unused_while_upto_C08_guarded A b ρ n externs
+
+/-- `while 1 > 2 do f() end; g()` -/
+def whileC08Sample : Block :=
+  .mk [.while_ (.bin .gt (.num 1) (.num 2)) (.mk [.callStmt (.call (.var "f") none .tuple [])] none),
+       .callStmt (.call (.var "g") none .tuple [])] none
+
+-- non-vacuity: with C08's toy instance the hypotheses hold and the loop is removed (an arithmetic comparison:
+-- outside `litApi`)
+example : C08.Agree C08.toyN C08.toyE ∧
+    Rules.UnusedWhile.apply (gApi C08.toyN C08.toyE) whileC08Sample =
+      Rules.UnusedWhile.apply (c08Api C08.toyN C08.toyE) whileC08Sample ∧
+    Rules.UnusedWhile.apply (c08Api C08.toyN C08.toyE) whileC08Sample =
+      .mk [.callStmt (.call (.var "g") none .tuple [])] none ∧
+    Rules.UnusedWhile.apply litApi whileC08Sample = whileC08Sample := by
+  have h1 : Rules.UnusedWhile.apply (gApi C08.toyN C08.toyE) whileC08Sample =
+      .mk [.callStmt (.call (.var "g") none .tuple [])] none := by rfl
+  have h2 : Rules.UnusedWhile.apply (c08Api C08.toyN C08.toyE) whileC08Sample =
+      .mk [.callStmt (.call (.var "g") none .tuple [])] none := by rfl
+  have h3 : Rules.UnusedWhile.apply litApi whileC08Sample = whileC08Sample := by rfl
+  exact ⟨C08.toy_agree, h1.trans h2.symm, h2, h3⟩
+
+/-- `remove_unused_if_branch` (statements and `if` expressions) with the real evaluator, guarded: every program. -/
+theorem rule_refines_remove_unused_if_branch_upto_C08_guarded {N : NumOps} {E : Evaluator.EvalOps N}
+    (A : C08.Agree N E) (b : Block) (ρ : ExtOracle N) (n : Nat) (externs : List String) :
+    runProgram ρ n externs b = .timeout ∨
+      runProgram ρ n externs (Rules.UnusedIfBranch.apply (gApi N E) b) = runProgram ρ n externs b :=
+  Rules.UnusedIfBranch.apply_upto_at (gApi_total A) b ρ n externs
+
+/-- `remove_unused_if_branch` as the driver runs it, on every program on which it agrees with the guarded rule. -/
+theorem rule_refines_remove_unused_if_branch_upto_C08 {N : NumOps} {E : Evaluator.EvalOps N}
+    (A : C08.Agree N E) (b : Block)
+    (h : Rules.UnusedIfBranch.apply (gApi N E) b = Rules.UnusedIfBranch.apply (c08Api N E) b)
+    (ρ : ExtOracle N) (n : Nat) (externs : List String) :
+    runProgram ρ n externs b = .timeout ∨
+      runProgram ρ n externs (Rules.UnusedIfBranch.apply (c08Api N E) b) = runProgram ρ n externs b := by
+  rw [← h]; exact rule_refines_remove_unused_if_branch_upto_C08_guarded A b ρ n externs
+
+/-- `if 1 + 1 == 2 then f() else g() end` -/
+def ifC08Sample : Block :=
+  .mk [.ifs [(.bin .eq (.bin .add (.num 1) (.num 1)) (.num 2), .mk [.callStmt (.call (.var "f") none .tuple [])] none)]
+        (some (.mk [.callStmt (.call (.var "g") none .tuple [])] none))] none
+
+example : Rules.UnusedIfBranch.apply (gApi C08.toyN C08.toyE) ifC08Sample =
+      Rules.UnusedIfBranch.apply (c08Api C08.toyN C08.toyE) ifC08Sample ∧
+    Rules.UnusedIfBranch.apply (c08Api C08.toyN C08.toyE) ifC08Sample =
+      .mk [.doBlock (.mk [.callStmt (.call (.var "f") none .tuple [])] none)] none := by
+  have h1 : Rules.UnusedIfBranch.apply (gApi C08.toyN C08.toyE) ifC08Sample =
+      .mk [.doBlock (.mk [.callStmt (.call (.var "f") none .tuple [])] none)] none := by rfl
+  have h2 : Rules.UnusedIfBranch.apply (c08Api C08.toyN C08.toyE) ifC08Sample =
+      .mk [.doBlock (.mk [.callStmt (.call (.var "f") none .tuple [])] none)] none := by rfl
+  exact ⟨h1.trans h2.symm, h2⟩
+
+/-- `convert_index_to_field` with the real evaluator, guarded: every program. -/
+theorem rule_refines_convert_index_to_field_upto_C08_guarded {N : NumOps} {E : Evaluator.EvalOps N}
+    (A : C08.Agree N E) (b : Block) (ρ : ExtOracle N) (n : Nat) (externs : List String) :
+    runProgram ρ n externs b = .timeout ∨
+      runProgram ρ n externs (Rules.ConvertIndexToField.apply (gApi N E) b) = runProgram ρ n externs b :=
+  Rules.ConvertIndexToField.apply_upto_at (gApi_total A) (gApi_str A) b ρ n externs
+
+/-- `convert_index_to_field` as the driver runs it, on every program on which it agrees with the guarded rule
+(every converted key is inside `h8 ∧ tot`: string literals, concatenations of strings, `"a" and "b"` …). -/
+theorem rule_refines_convert_index_to_field_upto_C08 {N : NumOps} {E : Evaluator.EvalOps N}
+    (A : C08.Agree N E) (b : Block)
+    (h : Rules.ConvertIndexToField.apply (gApi N E) b = Rules.ConvertIndexToField.apply (c08Api N E) b)
+    (ρ : ExtOracle N) (n : Nat) (externs : List String) :
+    runProgram ρ n externs b = .timeout ∨
+      runProgram ρ n externs (Rules.ConvertIndexToField.apply (c08Api N E) b) = runProgram ρ n externs b := by
+  rw [← h]; exact rule_refines_convert_index_to_field_upto_C08_guarded A b ρ n externs
+
+/-- `return t["a" .. "b"]` -/
+def indexC08Sample : Block :=
+  .mk [] (some (.ret [.index (.var "t") (.bin .concat (.str [97]) (.str [98]))]))
+
+example : Rules.ConvertIndexToField.apply (gApi C08.toyN C08.toyE) indexC08Sample =
+      Rules.ConvertIndexToField.apply (c08Api C08.toyN C08.toyE) indexC08Sample ∧
+    Rules.ConvertIndexToField.apply (c08Api C08.toyN C08.toyE) indexC08Sample =
+      .mk [] (some (.ret [.field (.var "t") "ab"])) := by
+  have h1 : Rules.ConvertIndexToField.apply (gApi C08.toyN C08.toyE) indexC08Sample =
+      .mk [] (some (.ret [.field (.var "t") "ab"])) := by rfl
+  have h2 : Rules.ConvertIndexToField.apply (c08Api C08.toyN C08.toyE) indexC08Sample =
+      .mk [] (some (.ret [.field (.var "t") "ab"])) := by rfl
+  exact ⟨h1.trans h2.symm, h2⟩
+
+/-- `compute_expression` with the real evaluator, guarded (`gApi`, which folds to `nil` / booleans / strings — numbers
+are not folded: `to_expression` of a number needs round-trip laws that `C08.Agree` does not give — and no F5
+rewrite): EVERY program. -/
+theorem rule_refines_compute_expression_upto_C08_guarded {N : NumOps} {E : Evaluator.EvalOps N}
+    (A : C08.Agree N E) (b : Block) (ρ : ExtOracle N) (n : Nat) (externs : List String) :
+    runProgram ρ n externs b = .timeout ∨
+      runProgram ρ n externs (Rules.ComputeExpression.Whole.applyG (gApi N E) b) = runProgram ρ n externs b :=
+  Rules.ComputeExpression.Whole.applyG_upto_at (gApi_total A) (Rules.ComputeExpression.gApi_fold A)
+    Rules.ComputeExpression.gApi_coherent Rules.ComputeExpression.gApi_closed b ρ n externs
+
+/-- `compute_expression` as the driver runs it, on every program on which it agrees with that guarded rule. -/
+theorem rule_refines_compute_expression_upto_C08 {N : NumOps} {E : Evaluator.EvalOps N}
+    (A : C08.Agree N E) (b : Block)
+    (h : Rules.ComputeExpression.Whole.applyG (gApi N E) b = Rules.ComputeExpression.apply (c08Api N E) b)
+    (ρ : ExtOracle N) (n : Nat) (externs : List String) :
+    runProgram ρ n externs b = .timeout ∨
+      runProgram ρ n externs (Rules.ComputeExpression.apply (c08Api N E) b) = runProgram ρ n externs b := by
+  rw [← h]; exact rule_refines_compute_expression_upto_C08_guarded A b ρ n externs
+
+/-- `return 1 < 2, "a" .. "b", nil and f()` -/
+def computeC08Sample : Block :=
+  .mk [] (some (.ret [.bin .lt (.num 1) (.num 2), .bin .concat (.str [97]) (.str [98]),
+    .bin .and .nil (.call (.var "f") none .tuple [])]))
+
+-- non-vacuity: a comparison and a concatenation are folded, a decided `and` is selected (all outside `litApi`)
+example : Rules.ComputeExpression.Whole.applyG (gApi C08.toyN C08.toyE) computeC08Sample =
+      Rules.ComputeExpression.apply (c08Api C08.toyN C08.toyE) computeC08Sample ∧
+    Rules.ComputeExpression.apply (c08Api C08.toyN C08.toyE) computeC08Sample =
+      .mk [] (some (.ret [.true, .str [97, 98], .nil])) := by
+  have h1 : Rules.ComputeExpression.Whole.applyG (gApi C08.toyN C08.toyE) computeC08Sample =
+      .mk [] (some (.ret [.true, .str [97, 98], .nil])) := by rfl
+  have h2 : Rules.ComputeExpression.apply (c08Api C08.toyN C08.toyE) computeC08Sample =
+      .mk [] (some (.ret [.true, .str [97, 98], .nil])) := by rfl
+  exact ⟨h1.trans h2.symm, h2⟩
+
+/-! ### … with ALLOCATING conditions (`while not {} do`, `if {} then`) — stage 4 unified (`Sem.HeapU`)
+
+`{}` is "pure" and truthy for the evaluator, so the rules drop its evaluation; the dropped evaluation allocates a
+table, after which the two runs differ by garbage. `Rules/AtNU.lean` (`ReplA`: a statement behaves as its replacement
+started in the current state plus allocations; `replA_sound`: the generic `HeapU` leaf, the number system pinned by
+`CF` as above, `upto` for the exhausted budget) and `Rules/AllocCondU.lean` lift this. The evaluator is `gApiA N E`:
+`c08Api N E` restricted to `h8 ∧ totA` (`tot` plus function expressions and table constructors of allocation-only
+content; `totA_total`, `gApiA_total`). Stage 4 asks the oracle to be flat (`OracleFlat`; the harness oracle is). -/
+
+/-- `remove_unused_while`, real evaluator, allocating conditions included, guarded: EVERY program. -/
+theorem rule_refines_remove_unused_while_upto_alloc_C08_guarded {N : NumOps} {E : Evaluator.EvalOps N}
+    (A : C08.Agree N E) (b : Block) (ρ : ExtOracle N) (hρ : Sem.HeapU.OracleFlat ρ) (n : Nat) (externs : List String) :
+    runProgram ρ n externs b = .timeout ∨
+      runProgram ρ n externs (Rules.UnusedWhile.apply (gApiA N E) b) = runProgram ρ n externs b :=
+  Rules.UnusedWhile.apply_upto_alloc (gApiA_total A) b ρ hρ n externs
+
+/-- `remove_unused_while` as the driver runs it, on every program on which it agrees with that guarded rule. -/
+theorem rule_refines_remove_unused_while_upto_alloc_C08 {N : NumOps} {E : Evaluator.EvalOps N}
+    (A : C08.Agree N E) (b : Block)
+    (h : Rules.UnusedWhile.apply (gApiA N E) b = Rules.UnusedWhile.apply (c08Api N E) b)
+    (ρ : ExtOracle N) (hρ : Sem.HeapU.OracleFlat ρ) (n : Nat) (externs : List String) :
+    runProgram ρ n externs b = .timeout ∨
+      runProgram ρ n externs (Rules.UnusedWhile.apply (c08Api N E) b) = runProgram ρ n externs b := by
+  rw [← h]; exact rule_refines_remove_unused_while_upto_alloc_C08_guarded A b ρ hρ n externs
+
+/-- … at the oracle and the number system the harness runs: no oracle hypothesis left -/
+theorem rule_refines_remove_unused_while_upto_alloc_C08_driver
+    (A : C08.Agree floatOps Evaluator.floatEvalOps) (b : Block)
+    (h : Rules.UnusedWhile.apply (gApiA floatOps Evaluator.floatEvalOps) b =
+      Rules.UnusedWhile.apply (c08Api floatOps Evaluator.floatEvalOps) b) (n : Nat) (externs : List String) :
+    runProgram Shared.driverOracle n externs b = .timeout ∨
+      runProgram Shared.driverOracle n externs (Rules.UnusedWhile.apply (c08Api floatOps Evaluator.floatEvalOps) b) =
+        runProgram Shared.driverOracle n externs b :=
+  rule_refines_remove_unused_while_upto_alloc_C08 A b h _ Sem.HeapU.driverOracle_flat n externs
+
+/-- `while not {} do f() end; g()` -/
+def whileAllocSample : Block :=
+  .mk [.while_ (.un .not (.table [])) (.mk [.callStmt (.call (.var "f") none .tuple [])] none),
+       .callStmt (.call (.var "g") none .tuple [])] none
+
+-- non-vacuity: the loop with an allocating condition is removed; inside the allocation-tolerant `H`, outside the
+-- exact one (`gApi` keeps the loop)
+example : Rules.UnusedWhile.apply (gApiA C08.toyN C08.toyE) whileAllocSample =
+      Rules.UnusedWhile.apply (c08Api C08.toyN C08.toyE) whileAllocSample ∧
+    Rules.UnusedWhile.apply (c08Api C08.toyN C08.toyE) whileAllocSample =
+      .mk [.callStmt (.call (.var "g") none .tuple [])] none ∧
+    Rules.UnusedWhile.apply (gApi C08.toyN C08.toyE) whileAllocSample = whileAllocSample := by
+  have h1 : Rules.UnusedWhile.apply (gApiA C08.toyN C08.toyE) whileAllocSample =
+      .mk [.callStmt (.call (.var "g") none .tuple [])] none := by rfl
+  have h2 : Rules.UnusedWhile.apply (c08Api C08.toyN C08.toyE) whileAllocSample =
+      .mk [.callStmt (.call (.var "g") none .tuple [])] none := by rfl
+  have h3 : Rules.UnusedWhile.apply (gApi C08.toyN C08.toyE) whileAllocSample = whileAllocSample := by rfl
+  exact ⟨h1.trans h2.symm, h2, h3⟩
+
+/-- `remove_unused_if_branch`, real evaluator, guarded (`applyGA`: the leading conditions of an `if` statement that
+the allocation-tolerant evaluator decides without side effects are resolved up to their allocations, the rest of the
+rule runs with the exact evaluator): EVERY program. -/
+theorem rule_refines_remove_unused_if_branch_upto_alloc_C08_guarded {N : NumOps} {E : Evaluator.EvalOps N}
+    (A : C08.Agree N E) (b : Block) (ρ : ExtOracle N) (hρ : Sem.HeapU.OracleFlat ρ) (n : Nat) (externs : List String) :
+    runProgram ρ n externs b = .timeout ∨
+      runProgram ρ n externs (Rules.UnusedIfBranch.applyGA (gApiA N E) (gApi N E) b) = runProgram ρ n externs b :=
+  Rules.UnusedIfBranch.applyGA_upto (gApiA_total A) (gApi_total A) b ρ hρ n externs
+
+/-- `remove_unused_if_branch` as the driver runs it, on every program on which it agrees with that guarded rule. -/
+theorem rule_refines_remove_unused_if_branch_upto_alloc_C08 {N : NumOps} {E : Evaluator.EvalOps N}
+    (A : C08.Agree N E) (b : Block)
+    (h : Rules.UnusedIfBranch.applyGA (gApiA N E) (gApi N E) b = Rules.UnusedIfBranch.apply (c08Api N E) b)
+    (ρ : ExtOracle N) (hρ : Sem.HeapU.OracleFlat ρ) (n : Nat) (externs : List String) :
+    runProgram ρ n externs b = .timeout ∨
+      runProgram ρ n externs (Rules.UnusedIfBranch.apply (c08Api N E) b) = runProgram ρ n externs b := by
+  rw [← h]; exact rule_refines_remove_unused_if_branch_upto_alloc_C08_guarded A b ρ hρ n externs
+
+theorem rule_refines_remove_unused_if_branch_upto_alloc_C08_driver
+    (A : C08.Agree floatOps Evaluator.floatEvalOps) (b : Block)
+    (h : Rules.UnusedIfBranch.applyGA (gApiA floatOps Evaluator.floatEvalOps)
+        (gApi floatOps Evaluator.floatEvalOps) b =
+      Rules.UnusedIfBranch.apply (c08Api floatOps Evaluator.floatEvalOps) b) (n : Nat) (externs : List String) :
+    runProgram Shared.driverOracle n externs b = .timeout ∨
+      runProgram Shared.driverOracle n externs
+          (Rules.UnusedIfBranch.apply (c08Api floatOps Evaluator.floatEvalOps) b) =
+        runProgram Shared.driverOracle n externs b :=
+  rule_refines_remove_unused_if_branch_upto_alloc_C08 A b h _ Sem.HeapU.driverOracle_flat n externs
+
+/-- `if not {} then f() elseif {1} then g() else h() end` -/
+def ifAllocSample : Block :=
+  .mk [.ifs [(.un .not (.table []), .mk [.callStmt (.call (.var "f") none .tuple [])] none),
+             (.table [.pos (.num 1)], .mk [.callStmt (.call (.var "g") none .tuple [])] none)]
+        (some (.mk [.callStmt (.call (.var "h") none .tuple [])] none))] none
+
+-- non-vacuity: a false and then a true allocating condition; the statement becomes `do g() end`
+example : Rules.UnusedIfBranch.applyGA (gApiA C08.toyN C08.toyE) (gApi C08.toyN C08.toyE) ifAllocSample =
+      Rules.UnusedIfBranch.apply (c08Api C08.toyN C08.toyE) ifAllocSample ∧
+    Rules.UnusedIfBranch.apply (c08Api C08.toyN C08.toyE) ifAllocSample =
+      .mk [.doBlock (.mk [.callStmt (.call (.var "g") none .tuple [])] none)] none ∧
+    Rules.UnusedIfBranch.apply (gApi C08.toyN C08.toyE) ifAllocSample = ifAllocSample := by
+  have h1 : Rules.UnusedIfBranch.applyGA (gApiA C08.toyN C08.toyE) (gApi C08.toyN C08.toyE) ifAllocSample =
+      .mk [.doBlock (.mk [.callStmt (.call (.var "g") none .tuple [])] none)] none := by rfl
+  have h2 : Rules.UnusedIfBranch.apply (c08Api C08.toyN C08.toyE) ifAllocSample =
+      .mk [.doBlock (.mk [.callStmt (.call (.var "g") none .tuple [])] none)] none := by rfl
+  have h3 : Rules.UnusedIfBranch.apply (gApi C08.toyN C08.toyE) ifAllocSample = ifAllocSample := by rfl
   exact ⟨h1.trans h2.symm, h2, h3⟩
 
 end DarkluaModel.C01
